@@ -4,6 +4,7 @@ import math
 
 from ..absint import AObj, Interp, Unknown
 from ..astutil import calls_in, call_name, dotted, norm, try_fold, walk_no_nested
+from ..cfg import cfg_of
 from ..core import AnalysisError
 from .c03 import eval_with
 from .c15 import linform
@@ -55,6 +56,10 @@ def run(repo, rep):
     rule_softmax_int16_range(repo, rep)
     rep.clause("C09-s", "the ADD that a 1x1 resize is lowered to takes its forced output scale from the operand slot where the lowering left the real input (producer and consumer agree on the slot)")
     rule_resize_add_slot(repo, rep)
+    rep.clause("C09-t", "an average pool emulated by a (depthwise) convolution gets an int32 bias from its own lowering on every path (full-precision window divisor; the later generic fixup would pick int64 / reduced scaling for int16)")
+    rule_avgpool_emulation_bias(repo, rep)
+    rep.clause("C09-u", "per-tensor scales reach the derivations as numpy float32 scalars: the reader's len1_array_to_scalar returns an element of the file's array, never a converted (double) value")
+    rule_reader_scalar_type(repo, rep)
     rep.undecided("relative error bounds, equality with the TFLite derivation for all real scales")
     sc = repo.mod("scaling")
 
@@ -918,3 +923,71 @@ def rule_resize_add_slot(repo, rep):
     want = "ifm2" if const_slot == 0 else "ifm"
     rep.check(all(r.attr == want for r in reads), "C09-s", site, f"the forced output scale of the resize ADD is read from `{want}` (the zero constant sits in slot {const_slot})",
               f"`{norm(branches[0].body[0])}`: slot {const_slot} holds the all-zero constant of scale 1.0: OFM_SCALE becomes the pair for scale 1.0 and the copied input is multiplied by its own scale")
+
+
+def rule_avgpool_emulation_bias(repo, rep):
+    """(t) an average pool that is emulated by a (depthwise) convolution divides by the window size through the packed scale record. The
+    record is derived with full precision only if the bias is int32: for an int16 IFM an int64 bias makes _prepare_scale_and_bias take the
+    reduced (15 bit) multiplier, which the reference uses for real int16 convolutions but not for pooling. Every lowering of an average pool
+    (a function of the graph optimiser that tests for Op.AvgPool / is_avgpool_op and re-types the operator to Conv2DBias /
+    DepthwiseConv2DBias) therefore creates the bias itself, with the literal DataType.int32, on every path from the re-typing to its exit
+    (the generic fixup that runs later picks int64 for int16)."""
+    go = repo.mod("tflite_graph_optimiser")
+    n = 0
+    for q, fn in go.functions.items():
+        if "." in q:
+            continue
+        src = " ".join(str(norm(s)) for s in fn.body)
+        if "Op.AvgPool" not in src and "is_avgpool_op" not in src:
+            continue
+        retypes = [st for st in ast.walk(fn) if isinstance(st, ast.Assign) and len(st.targets) == 1 and isinstance(st.targets[0], ast.Attribute) and st.targets[0].attr == "type"
+                   and str(norm(st.value)) in ("Op.Conv2DBias", "Op.DepthwiseConv2DBias")]
+        if not retypes:
+            continue
+        c = cfg_of(fn)
+        site = f"ethosu/vela/tflite_graph_optimiser.py:{q}"
+
+        def is_int32_bias(call):
+            nm = (call_name(call) or "").split(".")[-1]
+            if nm == "fixup_bias_tensors":
+                args = [str(norm(a)) for a in call.args[3:4]] + [str(norm(k.value)) for k in call.keywords if k.arg == "dtype"]
+                return args == ["DataType.int32"]
+            if nm == "create_const_tensor" and call.args and "_bias" in str(norm(call.args[0])):
+                return len(call.args) > 2 and str(norm(call.args[2])) == "DataType.int32"
+            return False
+
+        good = set()
+        for st in ast.walk(fn):
+            if isinstance(st, ast.stmt) and not isinstance(st, (ast.If, ast.For, ast.While, ast.FunctionDef, ast.With, ast.Try)):
+                if any(isinstance(x, ast.Call) and is_int32_bias(x) for x in ast.walk(st)):
+                    try:
+                        good.add(c.node_of(st))
+                    except Exception:
+                        pass
+        for rt in retypes:
+            n += 1
+            leak = c.path_avoiding(c.node_of(rt), 1, good)
+            rep.check(not leak, "C09-t", site, f"after `{str(norm(rt))}` every path creates the bias with DataType.int32",
+                      "a path reaches the end of the lowering without an int32 bias: the generic fixup adds an int64 bias for an int16 IFM and the window divisor is packed with the reduced 15-bit "
+                      "multiplier (demonstrated: int16 AVERAGE_POOL_2D 2x4 stride_w 4 -> record (16385, 17) for 1/8, 49152 of 65536 inputs off by one)")
+    if n < 2:
+        raise AnalysisError(f"average pool lowerings: {n} found")
+
+
+def rule_reader_scalar_type(repo, rep):
+    """(u) the reference multiplies per-tensor scales in float32 before widening (`np.double(ifm_scale * weight_scale)`); Vela reproduces
+    that only because the reader hands the scales on as numpy float32 scalars. len1_array_to_scalar therefore returns None, the array, or an
+    *element* of the array - never a converted value (`.item()`, `float(..)`, `.tolist()`), which would be a Python double and make the
+    product exact where the reference rounds it."""
+    fn = repo.mod("tflite_reader").func("TFLiteSubgraph.len1_array_to_scalar")
+    site = "ethosu/vela/tflite_reader.py:TFLiteSubgraph.len1_array_to_scalar"
+    prm = fn.args.args[-1].arg
+    rets = [s for s in ast.walk(fn) if isinstance(s, ast.Return)]
+    if len(rets) < 2:
+        raise AnalysisError("len1_array_to_scalar: returns not found")
+    for r in rets:
+        v = r.value
+        ok = v is None or str(norm(v)) in ("None", prm) or (isinstance(v, ast.Subscript) and str(norm(v.value)) == prm and isinstance(try_fold(v.slice, default=None), int))
+        rep.check(ok, "C09-u", site, f"`{str(norm(r))}` hands on the file's own element type",
+                  f"`{str(norm(v))}` converts the element: a Python float is a double, `np.double(ifm_scale * weight_scale)` then loses the float32 rounding of the product that the reference "
+                  "performs (Q31 multiplier off in its low bits for FULLY_CONNECTED / uint8 convolutions read from a file)")
